@@ -82,6 +82,9 @@ func (in *Interp) installStubs() {
 				panic(&Violation{Kind: "assert", Msg: msg, Model: m, Replay: in.Ctx.ReplayValues(m), Labels: append([]string(nil), in.Labels...), Where: in.where()})
 			default:
 				in.Inconclusive++
+				if ms, ok := a[1].(Str); ok && ms.B == nil {
+					in.InconclusiveMsgs = append(in.InconclusiveMsgs, ms.S)
+				}
 			}
 			return nil
 		},
@@ -185,7 +188,6 @@ func (in *Interp) installStubs() {
 	}
 	S["(*strings.Builder).Grow"] = func(in *Interp, a []Value) Value { return nil }
 	// ---- misc ----
-	S["fmt.Sprintf"] = func(in *Interp, a []Value) Value { return Str{S: "<fmt.Sprintf>"} }
 	S["encoding/json.Unmarshal"] = func(in *Interp, a []Value) Value {
 		abortf("json.Unmarshal reached (contract stub not in spike)")
 		return nil
